@@ -199,14 +199,12 @@ func twoctxMain() {
 	sim := buildPlatform(*platform)
 	d := sim.GetComponentByName("Driver").(*driver.Driver)
 	d.Run()
-	// one code object per context: the driver caches the device address of a code object per
-	// object, not per address space, so a second context would run whatever its own address
-	// space has at the first context's code address
 	var res []TwoCtxResult
 	for i := 0; i < *n; i++ {
-		// one launch per queue: a second round makes queue A issue a host copy that needs a cache flush while
-		// queue B's kernel is still running, and the timing platform then hangs (see docs/C02.md)
-		r := TwoCtxResult{Index: i, Words: 1024 * (2 + rng.Intn(3)), Rounds: 1}
+		r := TwoCtxResult{Index: i, Words: 1024 * (2 + rng.Intn(3)), Rounds: 1 + rng.Intn(3)}
+		// fresh code objects for every context: the driver caches the device address of a code object
+		// per object, not per address space; a context that reuses another one's object runs whatever
+		// its own address space holds there (garbage: panics or never ends)
 		xf := [2]*insts.KernelCodeObject{xformKernel(), xformKernel()}
 		var ctxs [2]*driver.Context
 		var qs [2]*driver.CommandQueue
@@ -214,7 +212,10 @@ func twoctxMain() {
 		for c := 0; c < 2; c++ {
 			ctxs[c] = d.Init() // a new PID with its own address space
 			d.SelectGPU(ctxs[c], 1)
-			bufs[c] = append(bufs[c], d.AllocateMemory(ctxs[c], walkPages*4096), d.AllocateMemory(ctxs[c], uint64(4*r.Words)))
+			bufs[c] = append(bufs[c], d.AllocateMemory(ctxs[c], walkPages*4096))
+			for b := 0; b < r.Rounds; b++ {
+				bufs[c] = append(bufs[c], d.AllocateMemory(ctxs[c], uint64(4*r.Words)))
+			}
 			in := make([]uint32, walkPages*1024)
 			for j := range in {
 				in[j] = uint32(0x11110000*(c+1)) + uint32(j*3+i)
@@ -230,7 +231,7 @@ func twoctxMain() {
 		}
 		for round := 0; round < r.Rounds; round++ {
 			for c := 0; c < 2; c++ {
-				args := ReaderArgs{X: bufs[c][round], Out: bufs[c][round+1], KOff: uint32(0xA5A50000*(c+1)) + uint32(round)}
+				args := ReaderArgs{X: bufs[c][0], Out: bufs[c][round+1], KOff: uint32(0xA5A50000*(c+1)) + uint32(round)}
 				d.EnqueueLaunchKernel(qs[c], xf[c], [3]uint32{uint32(r.Words), 1, 1}, [3]uint16{64, 1, 1}, &args)
 			}
 		}
@@ -238,9 +239,13 @@ func twoctxMain() {
 			d.DrainCommandQueue(qs[c])
 		}
 		for c := 0; c < 2; c++ {
-			o := make([]uint32, r.Words)
-			d.MemCopyD2H(ctxs[c], o, bufs[c][r.Rounds])
-			r.Out = append(r.Out, o)
+			var all []uint32
+			for b := 1; b <= r.Rounds; b++ {
+				o := make([]uint32, r.Words)
+				d.MemCopyD2H(ctxs[c], o, bufs[c][b])
+				all = append(all, o...)
+			}
+			r.Out = append(r.Out, all)
 		}
 		res = append(res, r)
 	}
